@@ -304,8 +304,8 @@ class _Live:
     """A GraphQL endpoint the schema is LOADED FROM (introspection over HTTP / WSGI / ASGI) and test cases are SENT to.
     Everything it receives is recorded: {"method", "path", "ctype", "body", "case_id"}."""
 
-    def __init__(self, view: dict, kind: str):
-        self.kind, self.records, self.server = kind, [], None
+    def __init__(self, view: dict, kind: str, send_path: str = LIVE_PATH):
+        self.kind, self.records, self.server, self.send_path = kind, [], None, send_path
         self.payload = {"data": to_introspection(view)}
         if kind == "url":
             from .server import LoopbackServer, json_response
@@ -358,7 +358,10 @@ class _Live:
         import schemathesis
 
         if self.kind == "url":
-            return schemathesis.graphql.from_url(self.server.base_url + LIVE_PATH)
+            schema = schemathesis.graphql.from_url(self.server.base_url + LIVE_PATH)
+            if self.send_path != LIVE_PATH:      # the user points the tests at another URL than the one the schema came from
+                schema.configure(base_url=self.server.base_url + self.send_path)
+            return schema
         if self.kind == "wsgi":
             return schemathesis.graphql.from_wsgi(LIVE_PATH, self.wsgi_app)
         return schemathesis.graphql.from_asgi(LIVE_PATH, self.asgi_app)
@@ -368,12 +371,12 @@ class _Live:
             self.server.stop()
 
 
-def project_wire(rec: dict, case_body) -> dict:
+def project_wire(rec: dict, case_body, send_path: str = LIVE_PATH) -> dict:
     """What the endpoint received, reduced to what WireViol (GraphQL.tla) reads."""
     import graphql
 
     w = {"method": rec["method"], "ctypeJson": rec["ctype"].split(";")[0].strip().lower() == "application/json", "isObject": False, "keys": [],
-         "queryIsString": False, "verbatim": False, "pathOk": rec["path"] == LIVE_PATH, "doc": {"defs": []}}
+         "queryIsString": False, "verbatim": False, "pathOk": rec["path"] == send_path, "doc": {"defs": []}}
     try:
         payload = json.loads(rec["body"])
     except Exception:  # noqa: BLE001
@@ -400,7 +403,7 @@ def work(item: dict) -> dict:
     rng_seed = item["seed"]
     res = {"s": sidx, "loader": loader, "docs": [], "ops": [], "errors": [], "draws": 0, "canon": [], "gql": {}, "wire": [], "maps": []}
     gschema = graphql.build_schema(to_sdl(view))  # independent of schemathesis; used only for the side-by-side validate
-    live = _Live(view, loader) if loader in ("url", "wsgi", "asgi") else None
+    live = _Live(view, loader, item.get("send_path", LIVE_PATH)) if loader in ("url", "wsgi", "asgi") else None
     load = live.load if live else (lambda: _load(view, loader))
     try:
         _work_body(item, res, gschema, live, load)
@@ -453,7 +456,7 @@ def _work_body(item: dict, res: dict, gschema, live, load) -> None:
                     continue
                 for rec in live.records[mark:]:
                     res["wire"].append({"s": sidx, "loader": loader, "cfg": cfg, "root": op["root"], "field": op["field"], "access": access + "+call",
-                                        "body": case.body, "w": project_wire(rec, case.body)})
+                                        "body": case.body, "w": project_wire(rec, case.body, live.send_path)})
 
     def record_by_operation(cfg, access, cases, err):
         """Cases of a combined strategy: each is judged against the operation it says it was generated for."""
@@ -578,7 +581,7 @@ def _engine_slice(item: dict, res: dict, live, load, gen, cfg: list) -> None:
         seen.add(rec["body"])
         op = _label_to_op(view, label)
         res["wire"].append({"s": sidx, "loader": loader, "cfg": cfg, "root": op["root"], "field": op["field"], "access": "engine",
-                            "body": body_of.get(rec["case_id"]), "w": project_wire(rec, body_of.get(rec["case_id"]))})
+                            "body": body_of.get(rec["case_id"]), "w": project_wire(rec, body_of.get(rec["case_id"]), live.send_path)})
 
 
 # --------------------------------------------------------------------------------------------------------------------
@@ -952,7 +955,7 @@ def run(ctx: Ctx) -> Outcome:
                 continue        # quick: the JSON front doors on every second shape (thorough: on all)
             ld = loader
             if loader == "json" and s % 7 == 3:
-                ld = ["json-data", "file-json"][s % 2]     # the other front doors of the same loaders, on a slice of the family
+                ld = ["json-data", "file-json"][(s // 7) % 2]     # the other front doors of the same loaders, on a slice of the family
             if loader == "sdl" and s % 7 == 5:
                 ld = "path"
             # SDL loader: all generation configs of the tier; JSON loaders: 2 of them
@@ -967,6 +970,7 @@ def run(ctx: Ctx) -> Outcome:
             continue
         items.append({"s": s, "view": dict(view, filters=view["filters"][:6]), "loader": kind, "cfgs": CFGS_QUICK[1:2] if kind != "url" else CFGS_QUICK[:1],
                       "n": n, "all_access": s % 4 == 1 or view["shape"]["mut"] != "none", "engine": kind == "url" and (not ctx.quick or s % 12 == 1),
+                      "send_path": "/v2/gql" if kind == "url" and s % 12 == 7 else LIVE_PATH,
                       "seed": (ctx.seed * 1000003 + s * 17 + 5) % (2 ** 31)})
     t1 = time.time()
     results = common.pmap(work, items, chunk=1)
